@@ -9,6 +9,7 @@ import (
 	"fmt"
 	"go/token"
 	"go/types"
+	"sort"
 	"strings"
 
 	"golang.org/x/tools/go/ssa"
@@ -87,6 +88,9 @@ func (bf *boundsFn) classifyLoop(li *loopInfo) (string, string) {
 		}
 		return true
 	}
+	// the exit tests in a fixed order (block index), whatever the map order was
+	sort.Slice(exits, func(i, j int) bool { return exits[i].blk.Index < exits[j].blk.Index })
+	wrapWhy := ""
 	// T1/T2: counters
 	for _, ins := range H.Instrs {
 		phi, ok := ins.(*ssa.Phi)
@@ -205,7 +209,10 @@ func (bf *boundsFn) classifyLoop(li *loopInfo) (string, string) {
 					slack = 1 // while i < B the largest value in the body is B-1
 				}
 				if dir == 1 && br.hi+stepHi-slack > tr.hi {
-					return "", fmt.Sprintf("counter %s of type %s can wrap before exceeding its bound (bound up to %d, step up to %d)", phi.Comment, phi.Type(), br.hi, stepHi)
+					// this exit test does not bound the counter below its type's
+					// maximum; another exit test may (remember why, keep looking)
+					wrapWhy = fmt.Sprintf("counter %s of type %s can wrap before exceeding its bound (bound up to %d, step up to %d)", phi.Comment, phi.Type(), br.hi, stepHi)
+					continue
 				}
 				if dir == -1 && tr.lo == 0 && br.lo < 0 {
 					continue
@@ -285,7 +292,7 @@ func (bf *boundsFn) classifyLoop(li *loopInfo) (string, string) {
 			}
 		}
 	}
-	return "", ""
+	return "", wrapWhy
 }
 
 func negCmp(op token.Token) token.Token {
